@@ -50,7 +50,7 @@ for _f, _n in (("B1", 25), ("B2", 20), ("B3", 5)):
 for _f, _n in (("Q1", 20), ("Q2", 12), ("Q3", 4), ("Q4", 3), ("C1", 15), ("C2", 5)):
     reg(_f, getattr(cue, "rule_" + _f), _n)
 
-for _f, _n in (("I1", 12), ("I2", 6), ("I3", 3), ("O1", 6), ("R1", 1)):
+for _f, _n in (("I1", 12), ("I2", 6), ("I3", 3), ("I4", 5), ("O1", 6), ("R1", 1)):
     reg(_f, getattr(isolation, "rule_" + _f), _n)
 
 for _f, _n in (("F1", 3), ("F2", 3), ("F3", 3), ("F4", 2), ("F5", 10), ("F6", 15)):
@@ -142,12 +142,12 @@ PROPS = {
               "size>=1 guard), READ-UNTIL-EMPTY, ANCESTOR (T1); no `for` grows its own iterable (T2); every cycle of the resolved call graph is in a confirmed table with its side condition "
               "re-checked (T3); image-controlled counts/sizes are width-bounded or lazy (T4)." + NOT + "complexity constants; loops inside construct/numpy; peak memory.",
               ["sector_length/buffer_length attributes are positive (constructor sites pass positive constants)", "the element parent relation is a tree"]),
-    "C14": _p(["I1", "L1t", "L4", "L2", "S1", "S2"],
+    "C14": _p(["I1", "I4", "L1t", "L4", "L2", "S1", "S2"],
               "Decides: in the AKAI file-table loop the handler re-seeks to entry start + entry size and continues; in lazy file realisation the error path appends nothing and continues; "
               "the four Roland sample references and tolerant lists skip a failing element; Roland records are addressed absolutely (Computed/Pointer/Lazy only) so element i cannot shift "
               "element j (I1, L4); 24-byte file entries / record layouts (L1t, L2); out-of-range start sectors raise the exception the loop swallows (S1, S2)." + NOT +
               "damage that still parses (a start sector pointing into another file's chain); equality of the other items' audio."),
-    "C15": _p(["S4", "S9", "T1", "L1w", "I1", "P5"],
+    "C15": _p(["S4", "S9", "T1", "L1w", "I1", "I4", "P5"],
               "Decides: a short sector read is detected on every returning path of SectorStream._read (S4e) and ends the data stream instead of aborting (S9); partition scan leaves its "
               "loop on the first unparsable header (T1-STREAM-PARSE exits); length prefixes wrap the streamed data (L1w); unreadable files are skipped without stopping the remaining ones "
               "(I1); whole-frame blocks (P5)." + NOT + "prefix equality; which files are reported for which cut."),
